@@ -430,6 +430,8 @@ impl Server {
     ) -> Result<(), RunFailed> {
         info!("Starting a validation run.");
         history.mark_update_start();
+        #[cfg(routinator_verif)]
+        crate::verif::trace("RunStart", &[("initial", initial as i64)]);
         let (report, metrics) = ValidationReport::process(
             engine, config, initial
         )?;
@@ -487,9 +489,15 @@ impl Server {
         exceptions: &LocalExceptions,
         initial: bool,
     ) -> Result<(), RunFailed> {
-        Self::process_once(
+        let res = Self::process_once(
             config, engine, history, notify, exceptions, initial
-        )
+        );
+        if let Err(err) = res.as_ref() {
+            crate::verif::trace(
+                "RunFailed", &[("fatal", err.is_fatal() as i64)]
+            );
+        }
+        res
     }
 }
 
